@@ -531,7 +531,7 @@ def mux_gates(ctx):
                         nact = {"~" + cpre + ".ras", cpre + ".cas", cpre + ".we"}   # De Morgan of ~(ras & ~cas & ~we)
                         others = [x for x in dl if lkey(x) not in nact]
                         has_nact = nact <= litset(dl)
-                        if has_nact and others and all({R.ready("tRRD"), R.ready("tFAW")} <= litset(v.expand([o])) for o in others):
+                        if has_nact and others and all({R.ready("tRRD"), R.ready("tFAW")} <= litset(v.expand(conj(o[0], o[1]))) for o in others):
                             act_ok = True
                 needs_cas = ch is R.req
                 ob.instance("%s state %s: %s" % (tag, l.state, rk), {"value": key(l.value), "cas_gated": cas_ok, "act_gated": act_ok})
